@@ -13,39 +13,48 @@ import (
 
 	"verif/drv/pbt"
 	"verif/ref/codecref"
+	"verif/ref/rtmpref"
 	"verif/ref/sdpref"
 )
 
 // SdpCase: the stream description handed to sdp.Pack, either directly (the
-// way every lal caller fills VideoInfo / AudioInfo) or by feeding RTMP
-// sequence headers to the Rtmp2RtspRemuxer, which is how lal generates the SDP
-// for a stream.
+// way every lal caller fills VideoInfo / AudioInfo) or by publishing RTMP
+// messages (metadata, sequence headers, frames) into the Rtmp2RtspRemuxer,
+// which is how lal generates the SDP for a stream.
 type SdpCase struct {
 	Video string `json:"video"` // "", "avc", "hevc"
 	VPS   PS     `json:"vps"`
 	SPS   PS     `json:"sps"`
 	PPS   PS     `json:"pps"`
-	// ViaRemuxer needs an SPS lal can open (BuildSeqHeader is not involved, but
-	// the remuxer's analysis reads nothing from it either); kept as bytes too.
 	Audio string `json:"audio"` // "", "aac", "pcma", "pcmu", "opus"
-	// AAC
+	// AAC: every AudioSpecificConfig head — object types 1..95 (escape form from
+	// 32), frequency index 0..12 or 15 with an explicit 24-bit frequency
 	ObjectType int    `json:"object_type"`
-	FreqIndex  int    `json:"freq_index"` // 0..12 (15 = explicit, direct mode only)
+	FreqIndex  int    `json:"freq_index"`
 	ExplicitHz int    `json:"explicit_hz"`
 	Channels   int    `json:"channels"`
 	FL960      bool   `json:"fl960"`
 	ExtIndex   int    `json:"ext_index"`
 	AscTail    []byte `json:"asc_tail,omitempty"`
-	// G.711: sampling rate announced by the publisher (metadata) or the default
+	// G.711 direct leg: the sampling rate the caller passes
 	Rate int `json:"rate"`
 
 	ViaRemuxer bool `json:"via_remuxer"`
 	AudioFirst bool `json:"audio_first"`
-	Enhanced   bool `json:"enhanced"` // HEVC sequence header in Enhanced-RTMP form
+	Enhanced   bool `json:"enhanced"` // HEVC messages in Enhanced-RTMP form
+	// remuxer leg: onMetaData in front, announcing audiocodecid and / or audiosamplerate (= Rate)
+	MetaCodec bool `json:"meta_codec"`
+	MetaRate  bool `json:"meta_rate"`
+	// remuxer leg: new sequence headers (different parameter sets / ASC) after the SDP was produced
+	Change string `json:"change"` // "", "video", "audio", "both"
 }
 
-func (c SdpCase) asc() []byte {
-	return append(codecref.BuildASC(c.ObjectType, c.FreqIndex, c.ExplicitHz, c.Channels, c.FL960, c.ExtIndex), c.AscTail...)
+func (c SdpCase) asc(gen int) []byte {
+	ch := c.Channels
+	if gen > 0 {
+		ch ^= 1
+	}
+	return append(codecref.BuildASC(c.ObjectType, c.FreqIndex, c.ExplicitHz, ch, c.FL960, c.ExtIndex), c.AscTail...)
 }
 
 func (c SdpCase) aacRate() int {
@@ -55,24 +64,34 @@ func (c SdpCase) aacRate() int {
 	return codecref.AACSampleRates[c.FreqIndex]
 }
 
+// sets returns the parameter sets of generation gen (0 = first sequence header, 1 = after the change).
+func (c SdpCase) sets(gen int) (vps, sps, pps []byte) {
+	v, s, p := c.VPS, c.SPS, c.PPS
+	if gen > 0 {
+		v.Seed, s.Seed, p.Seed = v.Seed+1, s.Seed+1, p.Seed+1
+		p.Len = p.Len%65535 + 1
+	}
+	switch c.Video {
+	case "avc":
+		return nil, s.bytes(avcSPSHdr), p.bytes(avcPPSHdr)
+	case "hevc":
+		return v.bytes(hevcVPSHdr), s.bytes(hevcSPSHdr), p.bytes(hevcPPSHdr)
+	}
+	return nil, nil, nil
+}
+
 func genSdp(t *rapid.T) SdpCase {
 	var c SdpCase
-	c.ViaRemuxer = rapid.IntRange(0, 3).Draw(t, "viaRemuxer") == 0
-	if c.ViaRemuxer {
-		// the remuxer emits the SDP as soon as it has a video and an AAC header
-		c.Video = rapid.SampledFrom([]string{"avc", "hevc"}).Draw(t, "video")
-		c.Audio = "aac"
-	} else {
-		c.Video = rapid.SampledFrom([]string{"", "avc", "avc", "hevc", "hevc"}).Draw(t, "video")
-		auds := []string{"", "aac", "aac", "pcma", "pcmu", "opus"}
-		if c.Video == "" {
-			auds = auds[1:]
-		}
-		c.Audio = rapid.SampledFrom(auds).Draw(t, "audio")
+	c.ViaRemuxer = rapid.IntRange(0, 2).Draw(t, "viaRemuxer") == 0
+	c.Video = rapid.SampledFrom([]string{"", "avc", "avc", "hevc", "hevc"}).Draw(t, "video")
+	auds := []string{"", "aac", "aac", "pcma", "pcmu", "opus"}
+	if c.Video == "" {
+		auds = auds[1:]
 	}
+	c.Audio = rapid.SampledFrom(auds).Draw(t, "audio")
 	max := maxSetLen()
 	c.VPS, c.SPS, c.PPS = psGen(max).Draw(t, "vps"), psGen(max).Draw(t, "sps"), psGen(max).Draw(t, "pps")
-	c.ObjectType = rapid.OneOf(rapid.SampledFrom([]int{1, 2, 2, 3, 4, 5, 29, 17, 23}), rapid.IntRange(1, 30), rapid.IntRange(32, 95)).Draw(t, "aot")
+	c.ObjectType = rapid.OneOf(rapid.SampledFrom([]int{1, 2, 2, 3, 4, 5, 29, 17, 23, 42}), rapid.IntRange(1, 30), rapid.IntRange(32, 95)).Draw(t, "aot")
 	c.FreqIndex = rapid.IntRange(0, 12).Draw(t, "freq")
 	c.Channels = rapid.IntRange(0, 15).Draw(t, "chan")
 	c.FL960 = rapid.Bool().Draw(t, "fl960")
@@ -81,18 +100,30 @@ func genSdp(t *rapid.T) SdpCase {
 	if len(c.AscTail) == 0 {
 		c.AscTail = nil
 	}
-	if c.ViaRemuxer {
-		// lal reads the sampling rate of the stream from the leading 5+4 bits
-		if c.ObjectType >= 31 {
-			c.ObjectType = 2
-		}
-	} else if rapid.IntRange(0, 7).Draw(t, "explicit") == 0 {
+	if rapid.IntRange(0, 5).Draw(t, "explicit") == 0 {
 		c.FreqIndex = 15
 		c.ExplicitHz = rapid.OneOf(rapid.SampledFrom([]int{8000, 44100, 48000, 96000, 192000}), rapid.IntRange(1, 1<<24-1)).Draw(t, "hz")
 	}
 	c.Rate = rapid.OneOf(rapid.SampledFrom([]int{8000, 8000, 16000, 44100, 48000}), rapid.IntRange(1, 400000)).Draw(t, "rate")
 	c.AudioFirst = rapid.Bool().Draw(t, "audioFirst")
 	c.Enhanced = rapid.Bool().Draw(t, "enhanced")
+	if c.ViaRemuxer {
+		if c.Audio == "pcma" || c.Audio == "pcmu" || c.Audio == "opus" {
+			c.MetaCodec = rapid.Bool().Draw(t, "metaCodec")
+			c.MetaRate = rapid.Bool().Draw(t, "metaRate")
+		}
+		ch := []string{"", "", ""}
+		if c.Video != "" {
+			ch = append(ch, "video")
+		}
+		if c.Audio == "aac" {
+			ch = append(ch, "audio")
+		}
+		if c.Video != "" && c.Audio == "aac" {
+			ch = append(ch, "both")
+		}
+		c.Change = rapid.SampledFrom(ch).Draw(t, "change")
+	}
 	return c
 }
 
@@ -107,74 +138,44 @@ type wantTrack struct {
 	asc      []byte
 }
 
-func runSdp(c SdpCase) *pbt.Violation {
-	var vps, sps, pps, asc []byte
+// wantTracks: what the stream is, with the video / audio configuration of the given generations.
+func (c SdpCase) wantTracks(vgen, agen int) []wantTrack {
 	var want []wantTrack
+	vps, sps, pps := c.sets(vgen)
 	switch c.Video {
 	case "avc":
-		sps, pps = c.SPS.bytes(avcSPSHdr), c.PPS.bytes(avcPPSHdr)
 		want = append(want, wantTrack{media: "video", encoding: "H264", basePt: base.AvPacketPtAvc, clock: 90000, sps: sps, pps: pps})
 	case "hevc":
-		vps, sps, pps = c.VPS.bytes(hevcVPSHdr), c.SPS.bytes(hevcSPSHdr), c.PPS.bytes(hevcPPSHdr)
 		want = append(want, wantTrack{media: "video", encoding: "H265", basePt: base.AvPacketPtHevc, clock: 90000, vps: vps, sps: sps, pps: pps})
 	}
-	ai := sdp.AudioInfo{AudioPt: base.AvPacketPtUnknown}
 	switch c.Audio {
 	case "aac":
-		asc = c.asc()
-		ai = sdp.AudioInfo{AudioPt: base.AvPacketPtAac, SamplingFrequency: c.aacRate(), Asc: asc}
 		clock := c.aacRate()
 		if c.ViaRemuxer && (c.ObjectType == 5 || c.ObjectType == 29) {
 			clock = 0 // explicit SBR signalling: core or extension rate — not fixed by the property
 		}
-		want = append(want, wantTrack{media: "audio", encoding: "MPEG4-GENERIC", basePt: base.AvPacketPtAac, clock: clock, asc: asc})
-	case "pcma":
-		ai = sdp.AudioInfo{AudioPt: base.AvPacketPtG711A, SamplingFrequency: c.Rate}
-		want = append(want, wantTrack{media: "audio", encoding: "PCMA", basePt: base.AvPacketPtG711A, clock: c.Rate})
-	case "pcmu":
-		ai = sdp.AudioInfo{AudioPt: base.AvPacketPtG711U, SamplingFrequency: c.Rate}
-		want = append(want, wantTrack{media: "audio", encoding: "PCMU", basePt: base.AvPacketPtG711U, clock: c.Rate})
+		want = append(want, wantTrack{media: "audio", encoding: "MPEG4-GENERIC", basePt: base.AvPacketPtAac, clock: clock, asc: c.asc(agen)})
+	case "pcma", "pcmu":
+		w := wantTrack{media: "audio", encoding: "PCMA", basePt: base.AvPacketPtG711A, clock: c.Rate}
+		if c.Audio == "pcmu" {
+			w.encoding, w.basePt = "PCMU", base.AvPacketPtG711U
+		}
+		if c.ViaRemuxer {
+			w.clock = 8000 // RFC 3551; lal's default when the publisher announces nothing
+			if c.MetaRate {
+				w.clock = 0 // lal takes the publisher's announcement; only reader agreement is asserted
+			}
+		}
+		want = append(want, w)
 	case "opus":
-		ai = sdp.AudioInfo{AudioPt: base.AvPacketPtOpus, SamplingFrequency: 48000}
 		want = append(want, wantTrack{media: "audio", encoding: "OPUS", basePt: base.AvPacketPtOpus, clock: 48000})
 	}
+	return want
+}
 
-	var raw []byte
-	if c.ViaRemuxer {
-		var got *sdp.LogicContext
-		n := 0
-		r := remux.NewRtmp2RtspRemuxer(func(ctx sdp.LogicContext) { n++; cp := ctx; got = &cp }, func(pkt rtprtcp.RtpPacket) {})
-		var vsh []byte
-		if c.Video == "avc" {
-			rec := codecref.AVCConfig{LengthSizeMinusOne: 3, SPS: [][]byte{sps}, PPS: [][]byte{pps}}
-			if len(sps) >= 4 {
-				rec.ProfileIndication, rec.ProfileCompatibility, rec.LevelIndication = sps[1], sps[2], sps[3]
-			}
-			vsh = codecref.RtmpAvcSeqHeader(rec.Marshal())
-		} else {
-			rec := codecref.HEVCConfig{ProfileIdc: 1, CompatFlags: 0x60000000, ConstraintFlags: 0x900000000000, LevelIdc: 93, ChromaFormat: 1, NumTemporalLayers: 1, TemporalIdNested: true, LengthSizeMinusOne: 3,
-				Arrays: []codecref.HEVCArray{{Completeness: true, NALType: 32, NALUs: [][]byte{vps}}, {Completeness: true, NALType: 33, NALUs: [][]byte{sps}}, {Completeness: true, NALType: 34, NALUs: [][]byte{pps}}}}
-			if c.Enhanced {
-				vsh = codecref.RtmpHevcEnhancedSeqHeader(rec.Marshal())
-			} else {
-				vsh = codecref.RtmpHevcSeqHeader(rec.Marshal())
-			}
-		}
-		vmsg := base.RtmpMsg{Header: base.RtmpHeader{Csid: 6, MsgTypeId: base.RtmpTypeIdVideo, MsgStreamId: 1, MsgLen: uint32(len(vsh))}, Payload: vsh}
-		ash := append([]byte{0xaf, 0x00}, asc...)
-		amsg := base.RtmpMsg{Header: base.RtmpHeader{Csid: 4, MsgTypeId: base.RtmpTypeIdAudio, MsgStreamId: 1, MsgLen: uint32(len(ash))}, Payload: ash}
-		if c.AudioFirst {
-			r.FeedRtmpMsg(amsg)
-			r.FeedRtmpMsg(vmsg)
-		} else {
-			r.FeedRtmpMsg(vmsg)
-			r.FeedRtmpMsg(amsg)
-		}
-		if got == nil || n != 1 {
-			return pbt.V("remux-sdp/not-produced", "Rtmp2RtspRemuxer called onSdp %d times after a %s and an AAC sequence header (sps %d pps %d asc %x)", n, c.Video, len(sps), len(pps), asc)
-		}
-		raw = got.RawSdp
-	} else {
+func runSdp(c SdpCase) *pbt.Violation {
+	if !c.ViaRemuxer {
+		vps, sps, pps := c.sets(0)
 		vi := sdp.VideoInfo{VideoPt: base.AvPacketPtUnknown}
 		switch c.Video {
 		case "avc":
@@ -182,14 +183,184 @@ func runSdp(c SdpCase) *pbt.Violation {
 		case "hevc":
 			vi = sdp.VideoInfo{VideoPt: base.AvPacketPtHevc, Vps: vps, Sps: sps, Pps: pps}
 		}
+		ai := sdp.AudioInfo{AudioPt: base.AvPacketPtUnknown}
+		switch c.Audio {
+		case "aac":
+			ai = sdp.AudioInfo{AudioPt: base.AvPacketPtAac, SamplingFrequency: c.aacRate(), Asc: c.asc(0)}
+		case "pcma":
+			ai = sdp.AudioInfo{AudioPt: base.AvPacketPtG711A, SamplingFrequency: c.Rate}
+		case "pcmu":
+			ai = sdp.AudioInfo{AudioPt: base.AvPacketPtG711U, SamplingFrequency: c.Rate}
+		case "opus":
+			ai = sdp.AudioInfo{AudioPt: base.AvPacketPtOpus, SamplingFrequency: 48000}
+		}
 		ctx, err := sdp.Pack(vi, ai)
 		if err != nil {
 			return pbt.V("sdp-pack/error", "sdp.Pack(video=%q audio=%q) failed: %v", c.Video, c.Audio, err)
 		}
-		raw = ctx.RawSdp
+		return checkSdp(ctx.RawSdp, c.wantTracks(0, 0))
 	}
 
-	// ---- the two readers ------------------------------------------------------------
+	// ---- the stream is published as RTMP messages --------------------------------------
+	type emitted struct {
+		raw        []byte
+		vgen, agen int
+	}
+	var sdps []emitted
+	vgen, agen := 0, 0
+	r := remux.NewRtmp2RtspRemuxer(func(ctx sdp.LogicContext) {
+		sdps = append(sdps, emitted{append([]byte(nil), ctx.RawSdp...), vgen, agen})
+	}, func(pkt rtprtcp.RtpPacket) {})
+	ts := uint32(0)
+	feed := func(typ uint8, payload []byte) {
+		csid := 6
+		if typ == base.RtmpTypeIdAudio {
+			csid = 4
+		}
+		r.FeedRtmpMsg(base.RtmpMsg{Header: base.RtmpHeader{Csid: csid, MsgTypeId: typ, MsgStreamId: 1, MsgLen: uint32(len(payload)), TimestampAbs: ts}, Payload: payload})
+	}
+	videoHeader := func(gen int) {
+		vps, sps, pps := c.sets(gen)
+		switch c.Video {
+		case "avc":
+			rec := codecref.AVCConfig{LengthSizeMinusOne: 3, SPS: [][]byte{sps}, PPS: [][]byte{pps}}
+			if len(sps) >= 4 {
+				rec.ProfileIndication, rec.ProfileCompatibility, rec.LevelIndication = sps[1], sps[2], sps[3]
+			}
+			feed(base.RtmpTypeIdVideo, codecref.RtmpAvcSeqHeader(rec.Marshal()))
+		case "hevc":
+			rec := codecref.HEVCConfig{ProfileIdc: 1, CompatFlags: 0x60000000, ConstraintFlags: 0x900000000000, LevelIdc: 93, ChromaFormat: 1, NumTemporalLayers: 1, TemporalIdNested: true, LengthSizeMinusOne: 3,
+				Arrays: []codecref.HEVCArray{{Completeness: true, NALType: 32, NALUs: [][]byte{vps}}, {Completeness: true, NALType: 33, NALUs: [][]byte{sps}}, {Completeness: true, NALType: 34, NALUs: [][]byte{pps}}}}
+			if c.Enhanced {
+				feed(base.RtmpTypeIdVideo, codecref.RtmpHevcEnhancedSeqHeader(rec.Marshal()))
+			} else {
+				feed(base.RtmpTypeIdVideo, codecref.RtmpHevcSeqHeader(rec.Marshal()))
+			}
+		}
+	}
+	audioHeader := func(gen int) {
+		if c.Audio == "aac" {
+			feed(base.RtmpTypeIdAudio, append([]byte{0xaf, 0x00}, c.asc(gen)...))
+		}
+	}
+	nframe := uint32(0)
+	videoFrame := func() {
+		key := nframe == 0
+		var p []byte
+		switch c.Video {
+		case "avc":
+			p = []byte{0x27, 1, 0, 0, 0}
+			nal := codecref.FillNAL([]byte{0x41}, nframe, 40, 0)
+			if key {
+				p[0] = 0x17
+				nal = codecref.FillNAL([]byte{0x65}, nframe, 40, 0)
+			}
+			p = append(p, codecref.BuildAVCC([][]byte{nal}, 4)...)
+		case "hevc":
+			nal := codecref.FillNAL(codecref.H265NALHeader(1, 0, 1), nframe, 40, 0)
+			if key {
+				nal = codecref.FillNAL(codecref.H265NALHeader(19, 0, 1), nframe, 40, 0)
+			}
+			if c.Enhanced {
+				p = []byte{0xa1, 'h', 'v', 'c', '1', 0, 0, 0} // inter frame, PacketTypeCodedFrames, composition time
+				if key {
+					p[0] = 0x91
+				}
+			} else {
+				p = []byte{0x2c, 1, 0, 0, 0}
+				if key {
+					p[0] = 0x1c
+				}
+			}
+			p = append(p, codecref.BuildAVCC([][]byte{nal}, 4)...)
+		default:
+			return
+		}
+		feed(base.RtmpTypeIdVideo, p)
+	}
+	audioFrame := func() {
+		switch c.Audio {
+		case "aac":
+			feed(base.RtmpTypeIdAudio, append([]byte{0xaf, 0x01}, codecref.FillNAL(nil, nframe, 24, 0)...))
+		case "pcma":
+			feed(base.RtmpTypeIdAudio, append([]byte{0x72}, codecref.FillNAL(nil, nframe, 160, 0)...))
+		case "pcmu":
+			feed(base.RtmpTypeIdAudio, append([]byte{0x82}, codecref.FillNAL(nil, nframe, 160, 0)...))
+		case "opus":
+			feed(base.RtmpTypeIdAudio, append([]byte{0xdf}, codecref.FillNAL(nil, nframe, 60, 0)...))
+		}
+	}
+	rounds := func(n int) {
+		for i := 0; i < n; i++ {
+			if c.AudioFirst {
+				audioFrame()
+				videoFrame()
+			} else {
+				videoFrame()
+				audioFrame()
+			}
+			nframe++
+			ts += 40
+		}
+	}
+	if c.MetaCodec || c.MetaRate {
+		var m []rtmpref.Member
+		if c.MetaCodec {
+			m = append(m, rtmpref.M("audiocodecid", rtmpref.Num(map[string]float64{"pcma": 7, "pcmu": 8, "opus": 13}[c.Audio])))
+		}
+		if c.MetaRate {
+			m = append(m, rtmpref.M("audiosamplerate", rtmpref.Num(float64(c.Rate))))
+		}
+		feed(base.RtmpTypeIdMetadata, rtmpref.EncodeAmf0(rtmpref.Str("onMetaData"), rtmpref.EcmaArray(m...)))
+	}
+	if c.AudioFirst {
+		audioHeader(0)
+		videoHeader(0)
+	} else {
+		videoHeader(0)
+		audioHeader(0)
+	}
+	// the remuxer decides after both headers, after the first frame of a codec without
+	// header, or — single-track streams — after 16 messages
+	rounds(17)
+	if len(sdps) == 0 {
+		return pbt.V("remux-sdp/not-produced", "Rtmp2RtspRemuxer produced no SDP after the headers and 17 rounds of frames of a %q + %q stream (asc %x)", c.Video, c.Audio, c.asc(0))
+	}
+	switch c.Change {
+	case "video":
+		vgen = 1
+		videoHeader(1)
+	case "audio":
+		agen = 1
+		audioHeader(1)
+	case "both":
+		vgen = 1
+		videoHeader(1)
+		agen = 1
+		audioHeader(1)
+	}
+	if c.Change != "" {
+		nframe = 0 // the encoder restarts with a key frame
+		rounds(3)
+	}
+	// after the video parameter sets changed, consumers that join from now on are described the new ones
+	// (lal rebuilds the SDP on a changed video sequence header; an AAC header change is not asserted — stated limit)
+	if vgen == 1 && sdps[len(sdps)-1].vgen != 1 {
+		return pbt.V("remux-sdp/stale-video-parameter-sets", "the publisher sent a video sequence header with other parameter sets; lal produced no new SDP (%d so far), consumers joining now get the former sets", len(sdps))
+	}
+	// every SDP lal hands to consumers describes the stream as it was configured at that moment
+	for i, e := range sdps {
+		if v := checkSdp(e.raw, c.wantTracks(e.vgen, e.agen)); v != nil {
+			v.Detail = fmt.Sprintf("SDP #%d of %d (video header generation %d, audio %d; meta codec=%v rate=%v): %s", i+1, len(sdps), e.vgen, e.agen, c.MetaCodec, c.MetaRate, v.Detail)
+			return v
+		}
+	}
+	return nil
+}
+
+// checkSdp reads raw with lal's reader and with the reference reader and
+// compares both with the stream description.
+func checkSdp(raw []byte, want []wantTrack) *pbt.Violation {
 	lc, err := sdp.ParseSdp2LogicContext(raw)
 	if err != nil {
 		return pbt.V("sdp-lal/error", "ParseSdp2LogicContext failed on lal's own SDP: %v\n%s", err, clipSdp(raw))
@@ -328,15 +499,29 @@ func classifySdp(c SdpCase) (bool, []string) {
 		if c.FreqIndex == 15 {
 			labels = append(labels, "asc-explicit-frequency")
 		}
-		if len(c.asc()) > 2 {
+		if len(c.asc(0)) > 2 {
 			labels = append(labels, "asc>2B")
 			nt = true
 		}
 	}
 	if c.ViaRemuxer {
-		labels = append(labels, "via-remuxer")
+		labels = append(labels, "via-remuxer", "via-remuxer/audio="+c.Audio)
 		if c.Video == "hevc" && c.Enhanced {
 			labels = append(labels, "via-remuxer-enhanced-hevc")
+		}
+		if c.Video == "" || c.Audio == "" {
+			labels = append(labels, "via-remuxer/single-track")
+		}
+		if c.MetaCodec || c.MetaRate {
+			labels = append(labels, fmt.Sprintf("via-remuxer/metadata codec=%v rate=%v", c.MetaCodec, c.MetaRate))
+		}
+		if c.Change != "" {
+			labels = append(labels, "via-remuxer/header-change="+c.Change)
+			nt = true
+		}
+		if c.Audio == "aac" && (c.ObjectType >= 32 || c.FreqIndex == 15) {
+			labels = append(labels, "via-remuxer/asc-escape")
+			nt = true
 		}
 	}
 	if c.Video != "" && c.Audio != "" {
